@@ -143,6 +143,9 @@ func sizedText(p TextProfile, q int) []Stmt {
 		}
 		gs := stmt("g")
 		gs.S = groups[(gi+off)%len(groups)]
+		if g.NameLen > 0 {
+			gs.S = longName(g.NameLen, gi)
+		}
 		out = append(out, gs)
 		corner := func(local int) []int {
 			c := []int{vBase + local + 1, 0, 0}
